@@ -133,6 +133,18 @@ def run(c):
             scripts.append(dict(cap=n + 2, block=False, retry=True, consumers=n,
                                 steps=[St("start")] + [St("offer", r) for r in rs] + [St("await", r) for r in rs] +
                                       [St("shutdown")] + [St("release", r, "transient") for r in rs] + [St("await_shutdown"), St("start"), St("drain")]))
+        # out-of-order completions with three consumers: the stored list of dispatched indices gets permuted (a completion swaps
+        # the last entry into the hole), then death / shutdown: recovery must not read anything into the ORDER of that list
+        # (seeded change C01-8 took the first and the last entry for the bounds of a contiguous range).
+        five = ["w1", "w2", "w3", "w4", "w5"]
+        ooo = [St("start")] + [St("offer", r) for r in five] + [St("await", "w1"), St("await", "w2"), St("await", "w3"), St("release", "w1", "ok"),
+               St("await", "w4"), St("release", "w4", "ok"), St("await", "w5")]
+        scripts.append(dict(cap=6, block=False, retry=True, consumers=3, steps=ooo + [St("crash"), St("start"), St("drain")]))
+        scripts.append(dict(cap=6, block=False, retry=True, consumers=3,
+                            steps=ooo + [St("shutdown")] + [St("release", r, "transient") for r in ("w2", "w3", "w5")] + [St("await_shutdown"), St("start"), St("drain")]))
+        scripts.append(dict(cap=6, block=False, retry=True, consumers=3,
+                            steps=[St("start")] + [St("offer", r) for r in five] + [St("await", "w1"), St("await", "w2"), St("await", "w3"), St("release", "w2", "ok"),
+                                   St("await", "w4"), St("release", "w1", "ok"), St("await", "w5"), St("crash"), St("start"), St("drain")]))
         c.log("generated %d distinct scripts" % len(scripts))
         todo = None
 
@@ -287,8 +299,13 @@ def run(c):
     confirmed = []
     for s, dies, v in lost[:10]:
         again = dict(s, id="confirm", dies=dies)
-        runs = execute([again], "confirm")
-        if monitor(runs, [again], "confirm"):
+        ok = False
+        for _ in range(3):       # (scripts with several consumers depend on which consumer wins a race: up to 3 runs alone)
+            runs = execute([again], "confirm")
+            if monitor(runs, [again], "confirm"):
+                ok = True
+                break
+        if ok:
             confirmed.append((s, dies, v))
         else:
             c.extra["unconfirmed_losses"] = c.extra.get("unconfirmed_losses", 0) + 1
